@@ -19,6 +19,7 @@ fn any_span() -> Span {
 // @fns DebugInfo::push, DebugInfo::get_source_span (the ip -> source span map behind runtime error locations and `debug` line prefixes)
 // @bound up to 4 pushes with strictly increasing instruction pointers (push_op records the current code length before each instruction, instructions are at least two bytes long) and spans from a 9-element domain; query ip over all u32
 // @assume ips are pushed in strictly increasing order (Compiler::push_op pushes bytes.len() before appending at least two bytes)
+// @kani --no-memory-safety-checks --no-assertion-reach-checks
 #[kani::proof]
 #[kani::unwind(7)]
 fn c12_debug_info_lookup() {
